@@ -206,17 +206,18 @@ Fixpoint replace_all_from (old new : string) (skip : nat) (s : string) : string 
 Definition replace_all (old new s : string) : string :=
   if is_empty old then s else replace_all_from old new O s.
 
-(** [strings.Split s sep] for a one-byte separator (never empty) *)
-Fixpoint split_on (sep : ascii) (s : string) : list string :=
+(** [strings.Split s sep] for a one-byte separator (never empty): first piece
+    and the remaining pieces *)
+Fixpoint split1 (sep : ascii) (s : string) : string * list string :=
   match s with
-  | EmptyString => [EmptyString]
+  | EmptyString => (EmptyString, [])
   | String c r =>
-    if Ascii.eqb c sep then EmptyString :: split_on sep r
-    else match split_on sep r with
-         | h :: t => String c h :: t
-         | [] => [String c EmptyString]
-         end
+    let '(h, t) := split1 sep r in
+    if Ascii.eqb c sep then (EmptyString, h :: t) else (String c h, t)
   end.
+
+Definition split_on (sep : ascii) (s : string) : list string :=
+  let '(h, t) := split1 sep s in h :: t.
 
 (** [strings.Cut s sep] for a one-byte separator: before, after (after = ""
     when the separator is absent) *)
